@@ -84,6 +84,12 @@ func c01Scenario(h http.Handler, kind int, integrity bool) {
 		vsym.Assert(rp.Code() == 200, "C01/put-status")
 		vsym.Assert(rp.Hdr.Get("ETag") == etagOf(body), "C01/put-etag")
 		checkEntity("C01/put", h, "/bkt/"+key, body, meta)
+		// a nested key and a sibling whose name differs only by '/' vs '_'
+		// keep their own metadata
+		nested := http.Header{"Content-Type": {"n/1"}, "X-Amz-Meta-A": {"nested"}}
+		vsym.Assert(Do(h, BodyReq("PUT", "/bkt/n/e", nested, body)).Code() == 200, "C01/nested-put")
+		vsym.Assert(Do(h, BodyReq("PUT", "/bkt/n_e", http.Header{"Content-Type": {"s/2"}, "X-Amz-Meta-A": {"sibling"}}, []byte("s"))).Code() == 200, "C01/sibling-put")
+		checkEntity("C01/nested", h, "/bkt/n/e", body, map[string]string{"Content-Type": "n/1", "X-Amz-Meta-A": "nested"})
 		vsym.Reach("C01/put")
 	case 1: // copy from another key; the copy request overrides one header
 		srcHdr := http.Header{"Content-Type": {"src/type"}, "X-Amz-Meta-A": {"src-a"}, "Content-Encoding": {"src-enc"}}
